@@ -18,10 +18,13 @@ CLAIMED = {
     text='Bounded model checking of the three validity kernels in every specialization: for arbitrary (valid and invalid) '
          'buffer contents and lengths <= 3 (quick) / 4 (thorough) the solver shows error <=> some documented rule is broken, and '
          'that the reported position is the first offender; plus closure obligations on index-producing kernels, and at the C++ method level: simplify_optiontype over nested '
-         'indexed / option nodes and mergemany of indexed nodes never yield a non-option node with a negative index.',
+         'indexed / option nodes and mergemany of indexed nodes never yield a non-option node with a negative index; every node-method harness of C01-C10, C12 and C17 that decodes a result object '
+         'additionally discharges the documented structural rules on it (offsets non-negative, monotone and inside the content; starts <= stops inside the content; size * length inside the content; index / tag inside the '
+         'content, negative index only in option nodes; mask and content long enough; record fields at least as long as the record array; no union directly inside a union) - "operations on valid arrays return valid arrays" '
+         'for the methods those harnesses run (see DESIGN.md 9.5 / 9.6).',
     note='Kernel level only: the C++ validityerror methods (parameter and canonical-form checks) and Python ak.is_valid need '
          'rapidjson/pybind11 and are outside the claim. Trusted: IR encoder, z3, transcription of the documented rules.',
-    technique='SMT bounded model checking of kernel LLVM IR (llbmc + z3), biconditional oracle'),
+    technique='SMT bounded model checking of kernel and C++ method LLVM IR (llbmc + z3), biconditional oracle; structural rules on decoded results; native replay'),
 }
 
 def mc(text, note, ref, tech='SMT bounded model checking of kernel LLVM IR (llbmc + z3) against an independent oracle; native ASan replay'):
